@@ -26,7 +26,7 @@ var runners = map[string]func(tags string, a []Val){
 
 	"ck.enc": runCkEnc, "ck.dec": runCkDec, "ck.crypt": runCkCrypt,
 
-	"nts.enc": runNtsEnc, "nts.dec": runNtsDec, "nts.resp": runNtsResp, "nts.pos": runNtsPos, "nts.req": runNtsReq,
+	"nts.enc": runNtsEnc, "nts.dec": runNtsDec, "nts.resp": runNtsResp, "nts.pos": runNtsPos, "nts.req": runNtsReq, "nts.redec": runNtsRedec, "nts.fmt": runNtsFmt,
 }
 
 func main() {
